@@ -36,6 +36,20 @@ def _subst(e, env):
     return T().visit(copy.deepcopy(e))
 
 
+def _strip_copies(e):
+    """np.copy(x) / x.copy() denote the value of x: whether a copy is NEEDED (the argument may be a view of a row that is overwritten) is decided by
+    R-ROWALIAS on the rows the call sites really pass, not by comparing the two files"""
+    class T(ast.NodeTransformer):
+        def visit_Call(self, n):
+            self.generic_visit(n)
+            if u(n.func) in ("np.copy", "numpy.copy") and len(n.args) == 1 and not n.keywords:
+                return n.args[0]
+            if isinstance(n.func, ast.Attribute) and n.func.attr == "copy" and not n.args and not n.keywords:
+                return n.func.value
+            return n
+    return T().visit(e)
+
+
 def _is_zero(e):
     return isinstance(e, ast.Constant) and isinstance(e.value, (int, float)) and not isinstance(e.value, bool) and e.value == 0
 
@@ -45,6 +59,7 @@ class SignEval:
         self.fn, self.signs = fnode, signs
         self.funcs = funcs or {}          # name -> FunctionDef of the same file: their calls are evaluated, not compared by name and argument list
         self.depth = depth
+        self.effects = {}
 
     # --- three-valued conditions decided by the sign assignment
     def sign_of(self, e):
@@ -83,7 +98,7 @@ class SignEval:
 
     # --- values: expressions with locals substituted; boolean-valued sign tests folded
     def value(self, e, env):
-        return self.fold(self.enter_calls(_subst(e, env)))
+        return self.fold(self.enter_calls(_strip_copies(_subst(e, env))))
 
     def enter_calls(self, e):
         """calls of functions of the same file are replaced by what they return for these arguments (a helper whose signature was changed together with
@@ -98,7 +113,8 @@ class SignEval:
                 if isinstance(n.func, ast.Name) and n.func.id in ev.funcs and not n.keywords:
                     fn = ev.funcs[n.func.id]
                     ps = [a.arg for a in fn.args.args]
-                    if len(ps) == len(n.args) and not any(isinstance(x, (ast.For, ast.While)) for x in ast.walk(fn)):
+                    if len(ps) == len(n.args) and not any(isinstance(x, (ast.For, ast.While)) or (isinstance(x, (ast.Subscript, ast.Attribute)) and isinstance(x.ctx, ast.Store))
+                                                          for x in ast.walk(fn)):
                         sub = SignEval(fn, ev.signs, ev.funcs, ev.depth + 1)
                         env = dict(zip(ps, n.args))
                         try:
@@ -161,6 +177,9 @@ class SignEval:
                     elif isinstance(t, (ast.Tuple, ast.List)) and all(isinstance(x, ast.Name) for x in t.elts):
                         for i, x in enumerate(t.elts):          # unpacking a call result: element i of that call
                             env[x.id] = ast.Subscript(value=copy.deepcopy(val), slice=ast.Constant(value=i), ctx=ast.Load())
+                    elif isinstance(t, (ast.Subscript, ast.Attribute)):
+                        # an effect on an argument: part of what the procedure does (last store into a place wins)
+                        self.effects[u(_subst(t, env)).replace(" ", "")] = u(val).replace(" ", "")
                     else:
                         raise Unsupported("store into `%s`" % u(t)[:40])
             elif isinstance(st, ast.AugAssign) and isinstance(st.target, ast.Name):
@@ -177,8 +196,9 @@ class SignEval:
         try:
             self.run(self.fn.body, env)
         except _Ret as r:
-            return u(r.v).replace(" ", "")
-        return "<falls off the end>"
+            eff = "".join(";%s<-%s" % kv for kv in sorted(self.effects.items()))
+            return u(r.v).replace(" ", "") + eff
+        return "<falls off the end>" + "".join(";%s<-%s" % kv for kv in sorted(self.effects.items()))
 
 
 def _subst_params(fn, ren):
